@@ -49,6 +49,7 @@ CONSTANTS NChecks,      \* number of checks (1..4); names c1.. in default comple
           MaxNonNone,   \* at most this many non-"none" cells in the verdict table
           MaxScopes,    \* a check is referenced from at most this many scopes
           Dmarcs,       \* subset of {"off", "quar"}
+          ExtraV,       \* subset of Combined: raw Reject && Quarantine results in the verdict alphabet
           Only1On,      \* TRUE: rcpt-stage verdicts may apply to recipient r1 only
           WithRemote,   \* TRUE: include the remote-target scenario
           Kinds,        \* subset of {"pipe", "rpipe"}: recording targets / the real remote target behind D1
@@ -138,7 +139,7 @@ CfgS ==
 
 CfgF ==
   /\ drv.ph = "cfgF"
-  /\ \E f \in [cfg.cells -> {"ignore", "quar", "reject"}] :
+  /\ \E f \in [cfg.cells -> {"ignore", "quar", "reject"} \cup ExtraV] :
      \E o \in (IF Only1On THEN SUBSET {i \in 1..N : <<i, "rcpt">> \in cfg.cells} ELSE {{}}) :
        cfg' = [cfg EXCEPT !.verd = [c \in Checks |-> [s \in Stages |->
                                        IF <<Idx(c), s>> \in cfg.cells THEN f[<<Idx(c), s>>] ELSE "none"]],
@@ -288,17 +289,17 @@ CallDone(c) ==
          fresh == raw = "?" /\ ~only
      IN
      \E v \in (IF only THEN {"none"} ELSE IF raw # "?" THEN {raw}
-               ELSE IF cfg.nn < MaxNonNone THEN Verdicts ELSE {"none"}) :
+               ELSE IF cfg.nn < MaxNonNone THEN Verdicts \cup ExtraV ELSE {"none"}) :
      \E o1 \in (IF fresh /\ v # "none" /\ g.stage = "rcpt" /\ g.arg = "r1" /\ Only1On THEN BOOLEAN ELSE {FALSE}) :
      LET cf   == IF fresh THEN [cfg EXCEPT !.verd[c][g.stage] = v,
                                            !.nn = IF v # "none" THEN @ + 1 ELSE @,
                                            !.only1 = IF o1 THEN @ \cup {c} ELSE @]
                  ELSE cfg
          \* a reject for a replayed recipient other than the one being handled is moot by design
-         moot == v = "reject" /\ g.stage = "rcpt" /\ ~(run.op = "rcpt" /\ g.arg = run.r)
+         moot == IsRej(v) /\ g.stage = "rcpt" /\ ~(run.op = "rcpt" /\ g.arg = run.r)
          leak == moot /\ "ReplayRejectLeaks" \in Devs
-         rej1 == run.rej \/ (v = "reject" /\ (~moot \/ leak))
-         any1 == run.anyrej \/ v = "reject"     \* a group with a reject does not merge its quarantines
+         rej1 == run.rej \/ (IsRej(v) /\ (~moot \/ leak))
+         any1 == run.anyrej \/ IsRej(v)        \* a group with a reject does not merge its quarantines
          gq1  == run.gq \/ v = "quar"
          k1   == [k EXCEPT !.seenR[c] = IF g.stage = "rcpt" THEN @ \cup {g.arg} ELSE @,
                            !.bodySeen = IF g.stage = "body" THEN @ \cup {c} ELSE @]
